@@ -472,6 +472,34 @@ func main() {
 	// 3. WKT sentences
 	tokens := []string{"POINT", "LINESTRING", "POLYGON", "MULTIPOINT", "MULTILINESTRING", "MULTIPOLYGON", "GEOMETRYCOLLECTION", "EMPTY", "(", ")", ",", " ", "1", "-1e5", "1 2", "x"}
 	nt := ev.Pick(r, 5, 6)
+	// scanner texts: the SQL scanners sniff their input (binary, hex, \x-hex, trailing line ends); every short
+	// string over the bytes those sniffers look at
+	scanAlphabet := []byte{'\\', 'x', '0', '1', '3', 'a', 'F', 'g', ' ', '\n', '\t', '\r', 0x00, 0x01, 0xff}
+	scanLen := ev.Pick(r, 5, 6)
+	r.ExploreSharded("scanner-texts", fmt.Sprintf("every string of 0..%d bytes over %q through the wkb / ewkb scanners (nil, Point, LineString, Collection destinations) and, behind a 4-byte prefix, ScannerPrefixSRID", scanLen, scanAlphabet), mc.Opts{MaxDev: -1}, 16, func(c *mc.Ctx) {
+		n := c.Choose(scanLen + 1)
+		b := make([]byte, n)
+		for i := range b {
+			k := c.Choose(len(scanAlphabet))
+			if i == 0 && !r.Owned(c, k) {
+				return
+			}
+			b[i] = scanAlphabet[k]
+		}
+		if n == 0 && !r.Owned(c, 0) {
+			return
+		}
+		for di, mk := range wkbDsts {
+			if di != 0 && di != 1 && di != 3 && di != 9 {
+				continue
+			}
+			entry := fmt.Sprintf("Scanner(dst#%d)/text", di)
+			guard(c, "wkb."+entry, len(b), hx(b), func() { wkb.Scanner(mk()).Scan(cp(b)) })
+			guard(c, "ewkb."+entry, len(b), hx(b), func() { ewkb.Scanner(mk()).Scan(cp(b)) })
+			pb := append([]byte{0xe6, 0x10, 0, 0}, b...)
+			guard(c, "ewkb.PrefixSRID"+entry, len(pb), hx(pb), func() { ewkb.ScannerPrefixSRID(mk()).Scan(cp(pb)) })
+		}
+	})
 	r.ExploreSharded("wkt-sentences", fmt.Sprintf("every sentence of 0..%d tokens over %v through Unmarshal and the 7 typed parsers", nt, tokens), mc.Opts{MaxDev: -1}, 16, func(c *mc.Ctx) {
 		first := c.Choose(len(tokens) + 1)
 		if !r.Owned(c, first) {
